@@ -20,7 +20,7 @@ run_one() {
   fi
 }
 export -f run_one
-ls -d /verif/seeded/${PFX}* | xargs -P $J -I{} bash -c 'run_one {}' | sort | tee /tmp/selftest.out
+ls -d /verif/seeded/${PFX}*/ | sed "s:/$::" | xargs -P $J -I{} bash -c 'run_one {}' | sort | tee /tmp/selftest.out
 grep -c caught /tmp/selftest.out
 grep "MISSED\|PATCH-DOES" /tmp/selftest.out && exit 1
 exit 0
